@@ -2,5 +2,5 @@ SPECIFICATION Spec
 CONSTANTS MaxText = 40
           MaxAad = 12
           MaxIV = 3
-INVARIANTS ZeroAadLemma SealAgrees RoundTrip OpenAgrees LanesAreInc
+INVARIANTS ZeroIvLemma ZeroAadLemma SealAgrees RoundTrip OpenAgrees LanesAreInc
 CHECK_DEADLOCK FALSE
